@@ -1,4 +1,6 @@
 import OdcGeo.Model.C17
+import OdcGeo.Model.C17Glue
+import OdcGeo.Spec.PySliceStep
 import OdcGeo.Model.C03
 import OdcGeo.Spec.PySlice
 namespace OdcGeo.C17.Drv
@@ -26,8 +28,94 @@ def parsePt? (s : String) : Option (Coord × Coord) :=
     | _, _ => none
   | _ => none
 
+/-- `i:<int>` or `s:<a>:<b>:<k>` with `N` for None -/
+def parseSIdx? (s : String) : Option SIdx :=
+  match s.splitOn ":" with
+  | ["i", k] => (parseInt? k).map SIdx.idx
+  | ["s", a, b, k] =>
+    match parseOpt? parseInt? a, parseOpt? parseInt? b, parseOpt? parseInt? k with
+    | some a, some b, some k => some (.slc a b k)
+    | _, _, _ => none
+  | _ => none
+
+/-- `1|x` one value, `m|[x,y]` a sequence -/
+def parseArg? {β : Type} (p : String → Option β) (s : String) : Option (Arg β) :=
+  match s.splitOn "|" with
+  | ["1", x] => (p x).map Arg.one
+  | ["m", xs] => (parseList? p xs).map Arg.many
+  | _ => none
+
+def fmtSS (s : SSlice) : String := s!"{s.start}:{s.stop}:{fmtOpt fmtInt s.step}"
+
+def fmtAns {β : Type} (f : β → String) : Ans β → String
+  | .one x => "one " ++ f x
+  | .many xs => "many " ++ fmtList f xs
+
+def parseShapeSp? (s : String) : Option ShapeSpelling :=
+  match s.splitOn ":" with
+  | ["S2", ny, nx] => do let ny ← parseInt? ny; let nx ← parseInt? nx; pure (.shape2d ny nx)
+  | ["XY", x, y] => do let x ← parseRat? x; let y ← parseRat? y; pure (.xy x y)
+  | ["SEQ", vs] => (parseList? parseRat? vs).map ShapeSpelling.seq
+  | ["OTHER"] => some .other
+  | _ => none
+
+def parseOB? (s : String) : Option (Option Int × Option Int) :=
+  match s.splitOn ":" with
+  | [a, b] => match parseOpt? parseInt? a, parseOpt? parseInt? b with
+    | some a, some b => some (a, b)
+    | _, _ => none
+  | _ => none
+
 def run (args : List String) : Option String :=
   match args with
+  | ["ns2d", idx, shape] => do
+    let shape ← parseList? parseInt? shape
+    let idx ← (match idx.splitOn "|" with
+      | ["T", items] => (parseList? parseSIdx? items).map Idx2Spelling.tuple
+      | ["I", y, x] => do let y ← parseInt? y; let x ← parseInt? x; pure (Idx2Spelling.index2d y x)
+      | ["O"] => some Idx2Spelling.other
+      | _ => none)
+    pure (fmtRes (fmtList fmtSS) (normSlice2d idx shape))
+  | ["norms", n, s] => do
+    let n ← parseInt? n; let s ← parseSIdx? s
+    pure (fmtSS (normSliceS s n))
+  | ["selstep", n, a, b, k] => do
+    let n ← parseNat? n; let a ← parseOpt? parseInt? a; let b ← parseOpt? parseInt? b; let k ← parseInt? k
+    if k = 0 then pure ErrKind.valueError.toStr else pure (fmtList fmtInt (PySliceStep.sel n a b k))
+  | ["normarg", roi, shape] => do
+    let roi ← parseArg? parseSIdx? roi; let shape ← parseArg? parseInt? shape
+    pure (fmtRes (fmtAns fmtSS) (roiNormaliseArg roi shape))
+  | ["padarg", roi, pad, shape] => do
+    let roi ← parseArg? parseSIdx? roi; let pad ← parseInt? pad; let shape ← parseArg? parseInt? shape
+    pure (fmtRes (fmtAns fmtSS) (roiPadArg roi pad shape))
+  | ["intarg", a, b] => do
+    let a ← parseArg? parseSIdx? a; let b ← parseArg? parseSIdx? b
+    pure (fmtRes (fmtAns fmtNS) (roiIntersectArg a b))
+  | ["int3arg", a, b] => do
+    let a ← parseList? parseSIdx? a; let b ← parseList? parseSIdx? b
+    pure (fmtRes (fun (x, y, z) => s!"{fmtList fmtNS x} {fmtList fmtNS y} {fmtList fmtNS z}") (roiIntersect3Arg a b))
+  | ["fullarg", roi, shape] => do
+    let roi ← parseArg? parseSIdx? roi; let shape ← parseArg? parseInt? shape
+    pure (fmtBool (roiIsFullArg roi shape))
+  | ["shapearg", roi] => do
+    let roi ← parseArg? parseSIdx? roi
+    pure (fmtRes (fmtList fmtInt) (roiShapeArg roi))
+  | ["emptyarg", roi] => do
+    let roi ← parseArg? parseSIdx? roi
+    pure (fmtRes fmtBool (roiIsEmptyArg roi))
+  | ["centerarg", roi] => do
+    let roi ← parseArg? parseSIdx? roi
+    pure (fmtRes (fmtAns fmtRat) (roiCenterArg roi))
+  | ["win", roi] => do
+    let roi ← parseOpt? (parseList? parseOB?) roi
+    pure (fmtRes (fun r => match r with
+      | none => "N"
+      | some ((y0, y1), (x0, x1)) => s!"{y0}:{fmtOpt fmtInt y1} {x0}:{fmtOpt fmtInt x1}") (windowFromSlice roi))
+  | ["fromptsp", shape, pad, al, xyOk, pts] => do
+    let shape ← parseShapeSp? shape; let pad ← parseRat? pad; let al ← parseOpt? parseRat? al
+    let xyOk ← parseBool? xyOk
+    let pts ← parseList? parsePt? pts
+    pure (fmtRes (fun (y, x) => s!"{fmtNS y} {fmtNS x}") (fromPointsPublic pts xyOk shape pad al))
   | ["norm", n, s] => do
     let n ← parseInt? n; let s ← parsePIdx? s
     pure (fmtNS (normSlice s n))
